@@ -109,12 +109,14 @@ OpED(n) == [k |-> "ed", n |-> n, s |-> <<>>]
 OpEL(n) == [k |-> "el", n |-> n, s |-> <<>>]
 
 \* ------------------------------------------------------------------ what a viewer sees
-LastIn(S) == CHOOSE k \in S : \A j \in S : j <= k
-RTrim(row) == LET S == {k \in 1..Len(row) : row[k] # Blank} IN IF S = {} THEN <<>> ELSE SubSeq(row, 1, LastIn(S))
-DropEmptyTail(rows) == LET S == {k \in 1..Len(rows) : rows[k] # <<>>} IN
-                       IF S = {} THEN <<>> ELSE SubSeq(rows, 1, LastIn(S))
+\* (single passes with FoldLeft: TLC re-evaluates LET definitions and function constructors at every reference, so
+\*  the obvious set-based formulations are cubic in the row length)
+LastNonBlank(row) == FoldLeft(LAMBDA acc, k : IF row[k] # Blank THEN k ELSE acc, 0, [k \in 1..Len(row) |-> k])
+RTrim(row) == SubSeq(row, 1, LastNonBlank(row))
+VisStep(acc, r) == LET t == RTrim(r) IN
+                   [rows |-> Append(acc.rows, t), n |-> acc.n + 1, last |-> IF t # <<>> THEN acc.n + 1 ELSE acc.last]
 \* rows without trailing blanks, without the blank rows at the bottom: two screens look alike iff these are equal
-Visible(rows) == DropEmptyTail([k \in 1..Len(rows) |-> RTrim(rows[k])])
+Visible(rows) == LET a == FoldLeft(VisStep, [rows |-> <<>>, n |-> 0, last |-> 0], rows) IN SubSeq(a.rows, 1, a.last)
 Screen(t) == Visible(t.rows)
 
 \* a logical line printed from column 0 folds into rows of w cells; the empty line still takes a row
